@@ -54,7 +54,7 @@ macro_rules! say {
 // A run that never returns (a loop inside the system under test that makes no call
 // through any seam) cannot be detected by counting simulator steps. The only use of a
 // real clock in the simulator is this safety net: a run that has been executing for
-// SIMCHECK_HANG_SECS (default 30) wall-clock seconds — five orders of magnitude above
+// SIMCHECK_HANG_SECS (default 120) wall-clock seconds — orders of magnitude above
 // the longest legitimate run — is reported as class "no-termination" with its replay
 // file and the process exits. It never influences any choice the simulator makes.
 
@@ -91,7 +91,7 @@ fn now_ms() -> u64 {
 }
 
 fn hang_limit_ms() -> u64 {
-    std::env::var("SIMCHECK_HANG_SECS").ok().and_then(|s| s.parse::<u64>().ok()).unwrap_or(30) * 1000
+    std::env::var("SIMCHECK_HANG_SECS").ok().and_then(|s| s.parse::<u64>().ok()).unwrap_or(120) * 1000
 }
 
 /// main-phase (shrinking, confirmation, replay) activity: what is executing right now
